@@ -3,7 +3,9 @@
 //! data revealed after the query positions were fixed is substituted *consistently with every
 //! algebraic check*, so that only the comparison with the earlier commitment can catch it:
 //!   remainder  : r' = r + c * prod(x - x_i) over the last-layer points of the folded query positions
-//!                (variant 1: the shorter interpolant through the queried points, zero-padded to a power of two)
+//!                (variant 1: the shorter interpolant through the queried points, zero-padded to a power of two;
+//!                 variant 2: a proof produced over a coin that never absorbs the remainder commitment, sent
+//!                 without that commitment, with the same-length substitution)
 //!                (same degree bound, same values at every queried point);
 //!   trace      : two opened main-trace values at one position changed by (d_a, d_b) with
 //!                cc_a*d_a + cc_b*d_b = 0 (the DEEP value, hence everything FRI sees, is unchanged);
@@ -89,6 +91,42 @@ impl<B: StarkField, H: ElementHasher<BaseField = B>> RandomCoin for RecCoin<H> {
             l.borrow_mut().push(Ev::IntsReq(num_values, domain_size, nonce));
             l.borrow_mut().push(Ev::Ints(r.clone()));
         });
+        Ok(r)
+    }
+}
+
+thread_local! {
+    /// SkipCoin: the 1-based index of the reseed that is NOT absorbed, and the positions it last drew
+    static SKIP_AT: RefCell<usize> = const { RefCell::new(0) };
+    static SKIP_POS: RefCell<Vec<usize>> = const { RefCell::new(Vec::new()) };
+}
+
+/// The real coin, except that one chosen `reseed` is ignored: the coin of a prover that does not absorb
+/// one of its commitments (e.g. the FRI remainder commitment) into the transcript.
+pub struct SkipCoin<H: ElementHasher>(DefaultRandomCoin<H>, usize);
+
+impl<B: StarkField, H: ElementHasher<BaseField = B>> RandomCoin for SkipCoin<H> {
+    type BaseField = B;
+    type Hasher = H;
+
+    fn new(seed: &[B]) -> Self {
+        SkipCoin(DefaultRandomCoin::new(seed), 0)
+    }
+    fn reseed(&mut self, data: H::Digest) {
+        self.1 += 1;
+        if self.1 != SKIP_AT.with(|s| *s.borrow()) {
+            self.0.reseed(data)
+        }
+    }
+    fn check_leading_zeros(&self, value: u64) -> u32 {
+        self.0.check_leading_zeros(value)
+    }
+    fn draw<E: FieldElement<BaseField = B>>(&mut self) -> Result<E, RandomCoinError> {
+        self.0.draw::<E>()
+    }
+    fn draw_integers(&mut self, num_values: usize, domain_size: usize, nonce: u64) -> Result<Vec<usize>, RandomCoinError> {
+        let r = self.0.draw_integers(num_values, domain_size, nonce)?;
+        SKIP_POS.with(|p| *p.borrow_mut() = r.clone());
         Ok(r)
     }
 }
@@ -379,7 +417,58 @@ where
             let offset = B::GENERATOR;
             let xs: Vec<E> = pos.iter().map(|&p| E::from(offset * g.exp((p as u64).into()))).collect();
             let horner = |p: &[E], x: E| p.iter().fold(E::ZERO, |acc, c| acc * x + *c);
-            if variant == 1 {
+            if variant == 2 {
+                // a prover that never absorbs the remainder commitment: the proof is produced by the stock
+                // prover over a coin that ignores that reseed, the commitment list is sent WITHOUT the
+                // remainder digest, and the remainder is substituted after the positions are known
+                let segments = 1 + usize::from(aux_w > 0);
+                SKIP_AT.with(|s| *s.borrow_mut() = segments + 2 + num_layers + 1);
+                let built2 = build_trace::<B>(case);
+                let trace2 = GenTrace::new(built2.desc.clone(), built2.cols, built2.honest_values.clone());
+                let prover2 = GenProver::<B, H, SkipCoin<H>>::new(case.opts.build());
+                let p2 = catch(|| run_prover(&prover2, trace2));
+                SKIP_AT.with(|s| *s.borrow_mut() = 0);
+                let mut p2 = match p2 {
+                    Ok(Ok(p)) => p,
+                    _ => return skip("the prover over the skipping coin failed"),
+                };
+                if p2.fri_proof.num_layers() != num_layers {
+                    return skip("layer count changed");
+                }
+                let (troots, croot, froots) = match p2.commitments.clone().parse::<H>(segments, num_layers) {
+                    Ok(x) => x,
+                    Err(_) => return skip("commitments of the second proof do not parse"),
+                };
+                p2.commitments = winter_air::proof::Commitments::new::<H>(troots, croot, froots[..num_layers].to_vec());
+                // folded positions of THIS transcript
+                let mut size2 = lde;
+                let mut pos2 = SKIP_POS.with(|p| p.borrow().clone());
+                pos2.sort();
+                pos2.dedup();
+                for _ in 0..num_layers {
+                    pos2 = fold_positions(&pos2, size2, fold);
+                    size2 /= fold;
+                }
+                let mut f2 = split_fri(&p2.fri_proof);
+                let rem2: Vec<E> = (0..f2.remainder.len() / E::ELEMENT_BYTES).map(|i| get::<E>(&f2.remainder, i)).collect();
+                if pos2.len() + 1 > rem2.len() {
+                    return skip("remainder too short for the number of folded positions");
+                }
+                let g2 = B::get_root_of_unity(size2.ilog2());
+                let xs2: Vec<E> = pos2.iter().map(|&p| E::from(B::GENERATOR * g2.exp((p as u64).into()))).collect();
+                let m2 = polynom::poly_from_roots(&xs2);
+                let mut new2 = rem2.clone();
+                let n2 = new2.len();
+                for (k, c) in m2.iter().enumerate() {
+                    new2[n2 - 1 - k] += *c * E::from(5u32);
+                }
+                remainder_consistent = new2 != rem2 && xs2.iter().all(|x| horner(&new2, *x) == horner(&rem2, *x));
+                for (i, v) in new2.iter().enumerate() {
+                    put::<E>(&mut f2.remainder, i, *v);
+                }
+                p2.fri_proof = join_fri(&f2);
+                forged = p2;
+            } else if variant == 1 {
                 // a SHORTER remainder than the committed one: the interpolant through the queried points of
                 // the committed remainder, zero-padded to the next admissible (power-of-two) length
                 let short_len = pos.len().next_power_of_two();
